@@ -1,5 +1,6 @@
 (* Trace/VcdProofs.v — proofs about the model in Trace/Vcd.v (property C16).  No axioms. *)
 From PV Require Import Base.Prelude Trace.Vcd.
+(* stdlib strings *)
 From Coq Require Import Strings.Ascii Strings.String.
 Open Scope Z_scope.
 
@@ -636,3 +637,8 @@ Proof. intros H. unfold to_vcd_str. now replace (n =? 1) with false by lia. Qed.
 
 Lemma bits_msb_length k u : String.length (bits_msb k u) = k.
 Proof. induction k; cbn; auto. Qed.
+
+Lemma to_vcd_str_multi_bit_form n u : n <> 1 ->
+  to_vcd_str n u = String "b"%char (bits_msb (Z.to_nat n) u ++ String " "%char EmptyString)%string
+  /\ String.length (bits_msb (Z.to_nat n) u) = Z.to_nat n.
+Proof. intros H. split; [exact (to_vcd_str_multi_bit n u H)|exact (bits_msb_length _ u)]. Qed.
